@@ -59,6 +59,20 @@ Lemma insert_range_unfault p key xs st st' o :
   insert_range p key xs st = (st', o) -> o <> Faulted -> insert_range None key xs st = (st', o).
 Proof. unfold insert_range. destruct (size st <? key); auto. apply insert_loop_unfault. Qed.
 
+Lemma insert_self_loop_unfault : forall n src key p st st' o,
+  insert_self_loop n src key p st = (st', o) -> o <> Faulted -> insert_self_loop n src key None st = (st', o).
+Proof.
+  induction n as [|m IH]; intros src key p st st' o H Hn; simpl in *; auto.
+  destruct (cap st <=? key); auto. destruct (get st src) as [x|]; auto.
+  destruct (assign_val st p key x) as [[st1 p1] o1] eqn:E.
+  destruct o1; try (inversion H; subst; rewrite (assign_val_unfault _ _ _ _ _ _ _ E Hn); reflexivity).
+  rewrite (assign_val_unfault _ _ _ _ _ _ _ E ltac:(discriminate)). eapply IH; eauto.
+Qed.
+
+Lemma insert_self_range_unfault p key a b st st' o :
+  insert_self_range p key a b st = (st', o) -> o <> Faulted -> insert_self_range None key a b st = (st', o).
+Proof. unfold insert_self_range. destruct (size st <? key); auto. apply insert_self_loop_unfault. Qed.
+
 Lemma push_back_range_unfault p xs st st' o :
   push_back_range p xs st = (st', o) -> o <> Faulted -> push_back_range None xs st = (st', o).
 Proof. apply insert_range_unfault. Qed.
